@@ -375,6 +375,31 @@ func runDispSeq(c *Ctx, in map[string]string) {
 				return
 			}
 			syncTmp()
+		case "collideecho":
+			// the application asks for a nickname that is taken; the server refuses it (433) and the client proposes another one.
+			// Until the SERVER says so (a NICK message) the client is who it was: the echo of one of its own messages is still an
+			// echo, and a message from the real holder of the proposed nickname is not
+			d.c.Cmd.Nick("alice")
+			time.Sleep(5 * time.Millisecond)
+			if !d.send(":srv 433 me alice :Nickname is already in use") || !d.barrier(fmt.Sprintf("ce%d", nev)) {
+				c.R.Violation("dispseq.stalled", hin, fmt.Sprintf("no PONG after the nickname refusal before event %d", nev), "", "every event is delivered")
+				return
+			}
+			for _, ev := range []struct {
+				src  string
+				echo bool
+			}{{":me!me@my.host", true}, {":alice_!a@other.host", false}} {
+				evCmd[nev], evEcho[nev] = "PRIVMSG", ev.echo
+				model = append(model, "e"+map[bool]string{true: "1", false: "0"}[ev.echo]+":"+hx("PRIVMSG"))
+				if !d.send(fmt.Sprintf("%s PRIVMSG #c :text n=%d", ev.src, nev)) || !d.barrier(fmt.Sprintf("cf%d", nev)) {
+					c.R.Violation("dispseq.stalled", hin, fmt.Sprintf("no PONG after event %d: the client stopped dispatching events", nev), "", "every event is delivered")
+					return
+				}
+				markDeadline(nev, time.Now())
+				nev++
+				waitExpected(nev-1, nev)
+			}
+			syncTmp()
 		case "ownping":
 			// the answer to a PING the CLIENT sent is an event like any other: it reaches the PONG handlers and the wildcard ones
 			id := fmt.Sprintf("lag n=%d", nev)
@@ -600,7 +625,7 @@ func genDispScript(r *RNG, n int) string {
 		case k == 10:
 			steps = append(steps, "sleep")
 		case k == 13 && r.Chance(50):
-			steps = append(steps, "nickecho")
+			steps = append(steps, r.Pick([]string{"nickecho", "nickecho", "collideecho"}))
 		case k == 11 || k == 12:
 			steps = append(steps, fmt.Sprintf("burst:%d", 2+r.Intn(6)))
 		default:
@@ -632,6 +657,7 @@ func runC06(c *Ctx) {
 		"reg:tmp:PRIVMSG:trueat1,ev:PRIVMSG:0,ev:PRIVMSG:0,reg:tmp:NOTICE:trueat2,ev:NOTICE:0,ev:NOTICE:0,ev:NOTICE:0,reg:tmpdl:301:normal,ev:301:0,sleep,ev:301:0",
 		"reg:add:PRIVMSG:panic,reg:add:PRIVMSG:normal,reg:addbg:*:panic,ev:PRIVMSG:0,ev:PRIVMSG:0,ev:NOTICE:0",
 		"reg:add:PONG:normal,reg:add:*:normal,reg:addbg:pong:normal,ownping,ev:PONG:0,ownping,ev:PRIVMSG:0,ownping",
+		"reg:add:PRIVMSG:normal,reg:add:*:normal,reg:addbg:privmsg:normal,ev:PRIVMSG:1,collideecho,ev:PRIVMSG:0,collideecho,ev:PRIVMSG:1",
 	}
 	for _, s := range corpus {
 		c.run("dispseq", map[string]string{"script": s, "recover": "1"})
